@@ -50,7 +50,9 @@ def fitted_cases(draw, family=None, cheap=True, profiles=None):
     rs = [draw(zoo.reporting(b)) for _ in range(3)]
     rs[0]["T_shift"] = 0.0
     rs[1]["T_shift"] = draw(st.sampled_from([25.0, -30.0]))
-    return {"kind": "fitted", "baseline": b, "reporting": rs}
+    # one case in three: the model object has a past - it was fitted to another building, serialised and used before it is
+    # fitted to this baseline (an object re-used in a loop); what is stored afterwards must be the present model
+    return {"kind": "fitted", "baseline": b, "reporting": rs, "past": draw(st.sampled_from([None, None, "fit-serialise-predict"]))}
 
 
 def check_formula(doc, out, key, c, rec):
@@ -97,7 +99,28 @@ def judge_fitted(c, rec):
     fam = b["family"]
     K = "%s/%s" % (fam, b["profile"])
     cls = ["sub=fitted", "family=" + fam, "profile=" + b["profile"]]
-    m, data = zoo.fitted(b)
+    if c.get("past"):
+        other = dict(b, noise_seed=b["noise_seed"] + 1, start_day=b["start_day"] + 31,
+                     usage=dict(b["usage"], base=b["usage"]["base"] * 1.7 + 3.0, hs=b["usage"]["cs"] + 0.4, cs=b["usage"]["hs"] + 0.2))
+        m, odata = zoo.fit_fresh(other)
+        try:
+            m.to_json()
+            m.to_dict()
+            zoo.predict(m, other, odata)
+        except Exception as e:
+            rec.note("past-raises:" + type(e).__name__)
+        data = zoo.build_baseline(b)
+        import contextlib, io
+
+        with contextlib.redirect_stdout(io.StringIO()):
+            if fam == "caltrack":
+                m.fit(data)
+            else:
+                m.fit(data, ignore_disqualification=True)
+        data = zoo.build_baseline(b)
+        cls.append("object-with-a-past")
+    else:
+        m, data = zoo.fitted(b)
     Model = zoo.model_class(fam)
     try:
         js = m.to_json()
